@@ -1275,9 +1275,16 @@ def _emit_block(
 
         if isinstance(node, ForRangeLoop):
             limit_expr = _emit_expr(node.count)
-            lines.append(
-                f"{indent}for (int {node.var_name} = 0; {node.var_name} < {limit_expr}; ++{node.var_name}) {{"
-            )
+            if node.hoist_count:
+                stop_name = f"__redu_stop_{node.var_name}"
+                lines.append(
+                    f"{indent}for (int {node.var_name} = 0, {stop_name} = {limit_expr}; "
+                    f"{node.var_name} < {stop_name}; ++{node.var_name}) {{"
+                )
+            else:
+                lines.append(
+                    f"{indent}for (int {node.var_name} = 0; {node.var_name} < {limit_expr}; ++{node.var_name}) {{"
+                )
             lines.extend(
                 _emit_block(
                     node.body,
